@@ -652,6 +652,18 @@ def try_edges(body, call_bb):
         if tt['k'] != 'call':
             return None
         a0 = op_place(tt['args'][0]) if tt['args'] else None
+        if a0 is not None and a0['l'] != dest and strip_generics(cname(tt)).endswith(('Result::is_err', 'Result::is_ok')):
+            # `let res = call(); flag = res.is_err(); res?`: a look at the result by reference on the way to the `?`
+            refs = [d for d in body.defs().get(a0['l'], []) if d[2] == 'assign' and d[3].get('k') == 'ref' and not d[3]['place'].get('p') and d[3]['place']['l'] == dest]
+            if refs:
+                cur = nxt
+                continue
+        if a0 is not None and a0['l'] != dest and not a0.get('p'):
+            # the result moved into a temporary first (`_t = move res; map_err(_t, ..)`)
+            mv = [d for d in body.defs().get(a0['l'], []) if d[2] == 'assign' and d[3].get('k') == 'use' and op_place(d[3]['op']) and
+                  not op_place(d[3]['op']).get('p') and op_place(d[3]['op'])['l'] == dest]
+            if len(mv) == 1 and len(body.defs().get(a0['l'], [])) == 1:
+                dest = a0['l']
         if a0 is None or a0['l'] != dest:
             return None
         if call_matches(tt, ['Try>::branch', 'Try::branch']):
